@@ -81,7 +81,22 @@ func (g *FuncGen) callCommon(cc *ssa.CallCommon, res ssa.Value, in ssa.Instructi
 			g.ghostState = nil
 			return rv
 		}
-		return g.havocCall("dynamic call "+exprText(cc.Value), cc, args, res, in)
+		dname := "dynamic call " + exprText(cc.Value)
+		if n := g.debugNameOf(cc.Value); n != "" {
+			dname = "dynamic call " + n // the source-level name of the function variable, so that ghost hooks can name it
+		} else if ld, ok := cc.Value.(*ssa.UnOp); ok && ld.Op == token.MUL {
+			if fa, ok := ld.X.(*ssa.FieldAddr); ok {
+				if st, ok := derefType(fa.X.Type()).Underlying().(*types.Struct); ok {
+					dname = "dynamic call " + st.Field(fa.Field).Name() // a function-valued struct field
+				}
+			}
+		}
+		pre := g.cur.clone()
+		rv := g.havocCall(dname, cc, args, res, in)
+		g.ghostState = pre
+		g.ghostAtUncontracted(dname, args, rv)
+		g.ghostState = nil
+		return rv
 	}
 	name := callee.String()
 	if o := callee.Origin(); o != nil {
@@ -107,6 +122,23 @@ func (g *FuncGen) callCommon(cc *ssa.CallCommon, res ssa.Value, in ssa.Instructi
 	g.ghostAtUncontracted(name, args, rv)
 	g.ghostState = nil
 	return rv
+}
+
+// debugNameOf: the source-level variable name bound to SSA value v (from the function's debug references).
+func (g *FuncGen) debugNameOf(v ssa.Value) string {
+	var names []string
+	for n, bs := range g.names {
+		for _, b := range bs {
+			if b.val == v && !b.isAddr {
+				names = append(names, n)
+			}
+		}
+	}
+	if len(names) == 0 {
+		return ""
+	}
+	sort.Strings(names)
+	return names[0]
 }
 
 // pureFuncFieldOf: v is a load of a struct field that a contract file declares `ghost purefunc`.
@@ -673,8 +705,16 @@ func (g *FuncGen) applyContract(ct *FuncContract, sig *types.Signature, args []V
 		calleePkg = g.pkg
 	}
 	env := &Env{g: g, vars: vars, cur: pre, old: pre, pkg: calleePkg}
+	// option callpre off (in the CALLER's contract): the callee's preconditions are not checked at this call
+	// site; its postconditions are then assumed only for calls that do meet the preconditions
+	preGuard := "true"
+	skipPre := g.contract != nil && g.contract.Options["callpre"] == "off"
 	for i, rq := range ct.Requires {
 		t := g.trBool(env, rq.E, "")
+		if skipPre {
+			preGuard = and(preGuard, t)
+			continue
+		}
 		o := &Obligation{Name: fmt.Sprintf("%s/call:%s@%d/pre#%d", g.fnName, short, ord, i+1), Guard: g.bcond[g.curBlock], Goal: t, Kind: "call-precondition", Text: rq.Text}
 		if in != nil {
 			o.Pos = g.prog.Fset.Position(in.Pos())
@@ -732,7 +772,7 @@ func (g *FuncGen) applyContract(ct *FuncContract, sig *types.Signature, args []V
 	bindResults(post.vars, sig, results, ct.ResultNames)
 	for _, en := range ct.Ensures {
 		t := g.trBool(post, en.E, "")
-		c.assert(implies(g.bcond[g.curBlock], t))
+		c.assert(implies(and(g.bcond[g.curBlock], preGuard), t))
 	}
 	g.runGhostAt(name, ord, post, results)
 	if res == nil {
@@ -920,6 +960,9 @@ func (g *FuncGen) havocAll(why string) {
 		old := g.heapOf(g.cur, cl)
 		n := c.fresh(cl+"@havoc", c.classes[cl])
 		for _, r := range g.localRefs {
+			if lc, ok := g.localRefClasses[r]; ok && !lc[cl] {
+				continue // this local holds no data in this class
+			}
 			c.assert(fmt.Sprintf("(= (select %s %s) (select %s %s))", n, r, old, r))
 		}
 		g.cur.heap[cl] = n
